@@ -1,9 +1,59 @@
-(* Props/C07.v — sample order and repetition do not change what is inferred.
-   This revision: sem_eqb (equality up to field / member order, Model/Canon.v) on a concrete permuted and duplicated input;
-   generate_perm_dup is being proved in Proofs/PermProps.v and merged when finished.  The model statement is tested on
-   every case of the run (Views/Vperm.v) and the implementation by the oracle on all permutations of <=4 samples. *)
-From Coq Require Import List Bool Arith NArith ZArith String.
-From J2M.Model Require Import Base Union Merge Optimize Detect Canon Emit.
+(* Props/C07.v — sample order and repetition do not change what is inferred.  Statements only; proofs in Proofs/PermProps.v.
+   FULL STATEMENT (generate_perm_dup): for sample lists equal as sets, the results of generate are equal up to field and
+   member order (sem_eqb).  PROVED SO FAR: sem_eqb is an equivalence decided by canon; DUnion construction depends only on
+   the set of flattened members; the key set and the required/optional status of every key of a merge depend only on the
+   set of field sets; the merge itself is invariant (members up to the relation, any order, any multiplicity); and
+   C07_generate_perm_dup_partial: the full statement UNDER the congruence of optimize (its first hypothesis), whose closed
+   induction is the missing piece (all its steps — regroup, finish, str_result, dunion — are proved).  The full statement is
+   tested on the model for every case of the run (Views/Vperm.v) and on the implementation by the oracle. *)
+From Coq Require Import List Bool Arith NArith ZArith.
+From J2M.Model Require Import Base Union Merge Optimize Detect Canon.
+From J2M.Sem Require Import NF.
+From J2M.Proofs Require Import NormalForm PermAux PermProps.
+
+Theorem C07_sem_eqb_iff :
+  forall a b : ty, sem_eqb a b = true <-> canon a = canon b.
+Proof. exact PermAux.sem_eqb_iff. Qed.
+
+Theorem C07_mk_union_set_sem :
+  forall ts ts' : list ty,
+       (forall x : ty, In x (flatten_union ts) <-> In x (flatten_union ts')) ->
+       sem_eqb (TUnion (mk_union ts)) (TUnion (mk_union ts')) = true.
+Proof. exact PermAux.mk_union_set_sem. Qed.
+
+Theorem C07_merge_keys_status_set :
+  forall (peq : N -> N -> bool) (sets sets' : list fields),
+       good_sets_R sets ->
+       good_sets_R sets' ->
+       (forall s : fields, In s sets <-> In s sets') ->
+       forall k : str,
+       has_key k (merge_field_sets peq sets) = has_key k (merge_field_sets peq sets') /\
+       (forall v v' : ty,
+        lookup k (merge_field_sets peq sets) = Some v ->
+        lookup k (merge_field_sets peq sets') = Some v' -> is_opt v = is_opt v').
+Proof. exact PermAux.merge_keys_status_set. Qed.
+
+Theorem C07_generate_perm_dup_partial :
+  forall (registry : list pseudo) (replaces : list (pseudo * pseudo)) (accepts : pseudo -> str -> bool)
+         (n_regex : nat) (key_matches : nat -> str -> bool) (dict_fields : list str),
+       (forall (f f' : nat) (a b u u' : ty),
+        RF1 a = true ->
+        S a = true ->
+        RF1 b = true ->
+        S b = true ->
+        frel a b ->
+        optimize registry replaces N.eqb f a = Some u ->
+        optimize registry replaces N.eqb f' b = Some u' -> canon u = canon u') ->
+       forall (fuel fuel' : nat) (s1 s2 : list (list (str * json))) (f1 f2 : fields),
+       (forall x : list (str * json), In x s1 <-> In x s2) ->
+       Forall (fun s : list (str * json) => wf_json (JObj s) = true) s1 ->
+       generate registry replaces accepts n_regex key_matches dict_fields fuel s1 = Some f1 ->
+       generate registry replaces accepts n_regex key_matches dict_fields fuel' s2 = Some f2 ->
+       sem_eqb (TObj f1) (TObj f2) = true.
+Proof. exact PermProps.generate_perm_dup_cong. Qed.
+
+From Coq Require Import String.
+From J2M.Model Require Import Emit.
 Import ListNotations.
 Definition s1 : list (str * json) := [(s_ "a", JInt 1); (s_ "b", JStr (s_ "x"))].
 Definition s2 : list (str * json) := [(s_ "a", JFloat 0); (s_ "c", JNull)].
